@@ -10,9 +10,8 @@
   included), exactly as in `Cell.float`.  `PVal` is what `to_json_serializable` is *given*: the same
   plus numpy arrays, datetimes, NA scalars, numpy scalars and foreign objects.
 
-  Python's `json.dumps` / `json.loads` are not modelled (trusted base): on `JVal` the text trip is the
-  identity for NaN-free values; `dumpsStrictOk` is the one decision `json.dumps(allow_nan=False)`
-  takes that matters here (ValueError exactly when some float is nan / inf / -inf).
+  The JSON *text* trip (`json.dumps` / `json.loads`) is modelled in Model/JsonText.lean; `dumpsStrictOk` is the one
+  decision `json.dumps(allow_nan=False)` takes on a JsonData (ValueError exactly when some float is nan / inf / -inf).
 -/
 import PdtModel.Model.Reader
 import PdtModel.Model.Represent
@@ -44,7 +43,7 @@ inductive PVal
   | ndarray (xs : List PVal)             -- numpy array of any other dtype, as its `.tolist()`
   | datetime (tok : Str)                 -- datetime.datetime / pd.Timestamp (ISO token), "NaT" = pd.NaT
   | na                                   -- not subscriptable and `pd.isna` true (pd.NA, Decimal("NaN"))
-  | npscalar                             -- numpy scalar: `obj[0]` raises IndexError, which escapes
+  | npscalar (item : PVal)               -- numpy scalar (np.generic): converted as its Python value `obj.item()`
   | other                                -- anything else: NotImplementedError
   deriving Repr, Inhabited
 
@@ -73,7 +72,7 @@ def toJson : PVal → JVal
   | .ndarray xs => .arr (toJsonList xs)
   | .datetime t => if t = NaT then .null else .str (isoBlank t)   -- `jval if jval != "NaT" else None`
   | .na => .null
-  | .npscalar => .null                                      -- (raises, see `raises`)
+  | .npscalar v => toJson v                                 -- `to_json_serializable(obj.item())`
   | .other => .null                                         -- (raises, see `raises`)
 def toJsonList : List PVal → List JVal
   | [] => []
@@ -91,7 +90,7 @@ def raises : PVal → Option PyExc
   | .dict kvs => raisesKvs kvs
   | .list xs => raisesList xs
   | .ndarray xs => raisesList xs
-  | .npscalar => some .indexError
+  | .npscalar v => raises v
   | .other => some notImplemented
   | _ => none
 def raisesList : List PVal → Option PyExc
